@@ -275,6 +275,9 @@ class Circuit:
                 g.control = [mapping[ind] for ind in g.control]
 
         self._qubit_indices = set(range(len(qubits_in_use)))
+        # A fixed number of qubits is trimmed as well: copies, inverses and repetitions keep the trimmed width
+        if self._qubits_simulated:
+            self._qubits_simulated = len(qubits_in_use)
         return self
 
     def reindex_qubits(self, new_indices):
